@@ -215,6 +215,7 @@ fn real_main() {
 			"C16" => {
 				props::c16::run(&mut out, &mut rng.fork(), thorough);
 				props::cli_extra::c16_buffer_boundary(&mut out, thorough);
+				props::cli_extra::c16_consumer_gone_routes(&mut out);
 				props::cli_extra::small_output_to_full_device(&mut out, "C16");
 				props::cli_extra::c16_help_write_errors(&mut out);
 			}
